@@ -11,9 +11,9 @@ import json, os, re
 import vcommon as V
 
 META = dict(
-    text="Lean 4: an executable model of the code generator (Model/Gen.lean, one function per Generate*) and of the stack VM (Model/VM.lean: every instruction, Run, CallFunction, CallUserFunction+recover, CallResolved/EvalCallExpression nested runs, scopes/closures/lazy arguments by reference in explicit tables, loops, self tail calls) is compared with an independent big-step reference evaluator (Spec/RefEval.lean: frames, closures by environment pointer, no stack/jumps/TCO, effect trace). PROVED, for programs of every size and nesting (Props/C02.lean, lemmas in Proofs/Sim*.lean): (layout) GenerateBegin pops exactly between statements; in cond with any number of arms every brn lands on the next arm and every jump behind the form; in and/or every br lands behind the form; the for-loop layout and its break/continue offsets; (execution) one turn of the Run loop and push/pop/dup/jump/goto/branch as state transformers; the SEGMENT LEMMA for the fragment Fv = literals, symbol reference, def, set, begin (also empty), cond with any number of arms, and/or of any arity, non-empty newScope, letseq, and let with pairwise distinct names, nested arbitrarily: the code compile produces for such an expression, embedded at any offset of any compiled function, run from a VM state related to the reference state (same bindings in every scope/frame, linear stack = static chain, same heap and trace), reaches its own end within code.length instructions with exactly one more value on the data stack - the value Ref.eval returns - and related states again, or ends in a script error with the same trace exactly when Ref.eval reports an error; the same SEGMENT LEMMA for the fragment Fc = Fv with binder names that are not builtin names, plus array literals [e1 ... en], plus for loops (labelled or not) whose init/test/increment/body are in Fc (so without break/continue; nested arbitrarily), plus calls (h a1 ... an) of first-order builtins (+ - * mod < > <= >= == != not cons first rest second list array len append concat aget aset hash hget hset, and the host function trace) with operands in Fc - a call is one VM instruction whose execution compiles every operand at run time into a fresh function object and runs it in a nested Run (EvalCallExpression/nested), then runs the builtin under CallUserFunction; callee first, operands once, left to right, errors propagate with the trace; the SEGMENT LEMMA for the fragment F2 = expressions built from literals, symbol reference, def, set, begin, cond, and, or, non-empty newScope, letseq, let with distinct names, array literals, for loops without break/continue, calls (h a1 ... an) whose head symbol is looked up at run time and may denote a USER FUNCTION (closure object; a wrong number of operands is the script error of both sides), a first-order builtin, or something that cannot be called (the value itself without operands, an error with them), and - anywhere but inside the operands of a call - (fn [p1 ... pn] body...) and (defn name [p1 ... pn] body...) of fixed arity or with a rest parameter [p1 ... pn & rest] (the arguments beyond the fixed ones are packed into a list by wrangleOptargs in CallFunction, resp. by PrepareCall on the self-tail-call path; too few arguments is the script error of both sides), at top level or nested in function bodies to any depth: closures capture the scopes of the functions they were made in (and may assign to captured variables), are values (bound by def, passed as operands, returned, kept in lists) and are called later; recursion included (not in a position compiled as a self tail call); under a relation (Sim.RelF) in which values correspond modulo the numbering of closures (the VM names a closure by its index in the function table, the reference by its index in its closure table: Sim.tr, every first-order builtin commutes with the renaming: Sim.prim_tr) and in which the linear scope stack inside a callee is its own scopes down to the function scope on top of the caller's stack, the rest of the static chain being what stage 2 of LexicalLookupSymbol finds, segment by segment, in the closing stacks of the closure object and of the functions that made it (Sim.ChainF, Sim.FnChainF, Sim.RelF.lexLookup); templates are compiled when the text is loaded and closures made from them at run time (Sim.GenOk, Sim.closure_step); the SEGMENT LEMMA WITH NON-LOCAL EXITS for the fragment Fx = F2 plus, in top-level code (not inside function bodies or call operands), break and continue - plain or labelled - of the enclosing for loops, under begin/cond arms/let/letseq/newScope/nested for bodies (segment_lemma_Fx: a third kind of outcome besides landing and failing - when the reference evaluator yields brk l/cont l the VM has found the loop's LoopStart (the first one carrying its id: Sim.findLoopStart_at), popped exactly the scopes opened inside that loop, and stands on the loop's clearMark resp. continue label with only values above the loop's stack mark (Sim.JumpedF; the offsets are the ones GenerateForLoop stored after compiling the body: Sim.LoopsFinal); one loop with exits against Ref.loop: Sim.XClaimF); SELF TAIL CALLS (F2c, after fix C09-02): a call of the function being compiled, in tail position of its body (under begin/cond/let/letseq/newScope), is compiled as TailGuard, operands inline, PrepareCall, RemoveScope x (scopes+1), Goto 0, and behind the jump the ordinary call; tail_call_simulates (Sim.simT_selfcall): if the guard passes (the name still denotes the running function object) the operands are evaluated once, left to right, the scopes of the activation are dropped, the function is re-entered at instruction 0 in exactly the state CallFunction would leave for an ordinary call of the same closure from the original call site, so the rest of the activation is that application (FClaimU) and its return is the return of this activation (a fourth outcome of the simulation: Sim.RetOut); if the guard fails (name unbound, re-bound to something else, another closure) the ordinary call behind the jump runs; the arity check of the generator (knownFunctions) is tied to the running closure (Sim.KnownOk); the body of every closure object is simulated in tail position (Sim.TClaimB in FClaimU); and from them CompileCorrect RESTRICTED TO Fv, TO Fc, TO F2, TO Fx AND TO F2c PROGRAMS (compile_correct_on_Fv, compile_correct_on_Fc, compile_correct_on_F2, compile_correct_on_F2x, compile_correct_on_F2c - F2c = top-level statements of Fx and top-level defns with self tail calls and, in the statements before the last form of their bodies, for loops that break/continue (the loop table facts travel with every closure object: Sim.GenOk now carries Sim.LoopsFinal, Sim.FnsKeep the growth of the loop table): whenever the reference evaluator reports value/error+trace for the program text, VM.runText = LoadExpressions+Run on the generator model reports the same), with explicit fuel bounds on both sides for the effect-free sub-fragment F0c (compile_correct_F0c: VM fuel 3*size+3). NOT PROVED: CompileCorrect for the remaining programs (def CompileCorrectOutsideProved: fn/defn inside an operand of a call or with lazy parameters or a self call in a directly compiled non-tail position or in a nested defn, map/apply/force/substitute, computed call heads, break/continue inside nested functions, empty newScope); compile_correct_partial proves that CompileCorrect follows from that remainder. The remainder - and the tie of both models to the Go code - is held by the 3-way correspondence of channel `eval` (implementation vs VM model on class/value/trace/four stack depths; implementation vs reference evaluator on class/value/trace) over grammar- and type-directed programs, a malformed stream and an exhaustive small scope. A unit test fixes a few hundred programs; the theorems cover every arm count and nesting of the fragment, the correspondence every generated shape.",
-    note="Trusted: Lean kernel; axioms propext/Classical.choice/Quot.sound. The models are hand-written and tied to zygo/generator.go, vm.go, environment.go, scopes.go, closing.go, stack.go, expressions.go only by the `eval` correspondence (differential testing): the theorems are about Model/Gen.lean + Model/VM.lean vs Spec/RefEval.lean, not about the Go code. The builtin semantics on values (Model/Prim.lean) are shared by model and reference. Partial: the execution half of the simulation is proved for the fragments Fv, Fc, F2, Fx and F2c only (Fc: builtin calls, array literals and for loops without break/continue; F2: defn/fn of fixed arity at any depth, closures capturing locals, calls of user functions by name, recursion, functions as values, with def/set/begin/cond/and/or/newScope/letseq/let/array literals/for loops and builtin calls - no fn/defn inside call operands, no lazy parameters, no self tail call, no break/continue; Fx: F2 plus break/continue - plain or labelled - in top-level loops; F2c: Fx plus top-level defns with self tail calls and loops that break/continue in their bodies); an empty (newScope) is outside the fragment (the reference allocates a frame, the VM pushes nil without a scope: the index-by-index relation does not cover it); a parallel let with a repeated name is outside the fragment and, by Ref.wf, outside the property's domain (implementation/VM model bind the last name first: (let [a 1 a 2] a) = 1, a first-name-first reading gives 2). Infix surface syntax, floats, chars, hashes and `/` are outside the modelled core; break/continue inside call operands are outside the random generators' domain (known finding). The `compile` listing channel is not implemented (jump arithmetic is tied to the Go code through `eval` only).",
-    technique="Lean 4 theorems over an executable model of generator+VM and a reference evaluator; 3-way model/spec/implementation correspondence through the line protocol",
+    text="Lean 4: an executable model of the code generator (Model/Gen.lean, one function per Generate*) and of the stack VM (Model/VM.lean: every instruction, Run, CallFunction, CallUserFunction+recover, CallResolved/EvalCallExpression nested runs, scopes/closures/lazy arguments by reference in explicit tables, loops, self tail calls) is compared with an independent big-step reference evaluator (Spec/RefEval.lean: frames, closures by environment pointer, no stack/jumps/TCO, effect trace). PROVED, for programs of every size and nesting (Props/C02.lean, lemmas in Proofs/Sim*.lean): (layout) GenerateBegin pops exactly between statements; in cond with any number of arms every brn lands on the next arm and every jump behind the form; in and/or every br lands behind the form; the for-loop layout and its break/continue offsets; (execution) one turn of the Run loop and push/pop/dup/jump/goto/branch as state transformers; the SEGMENT LEMMA for the fragment Fv = literals, symbol reference, def, set, begin (also empty), cond with any number of arms, and/or of any arity, non-empty newScope, letseq, and let with pairwise distinct names, nested arbitrarily: the code compile produces for such an expression, embedded at any offset of any compiled function, run from a VM state related to the reference state (same bindings in every scope/frame, linear stack = static chain, same heap and trace), reaches its own end within code.length instructions with exactly one more value on the data stack - the value Ref.eval returns - and related states again, or ends in a script error with the same trace exactly when Ref.eval reports an error; the same SEGMENT LEMMA for the fragment Fc = Fv with binder names that are not builtin names, plus array literals [e1 ... en], plus for loops (labelled or not) whose init/test/increment/body are in Fc (so without break/continue; nested arbitrarily), plus calls (h a1 ... an) of first-order builtins (+ - * mod < > <= >= == != not cons first rest second list array len append concat aget aset hash hget hset, and the host function trace) with operands in Fc - a call is one VM instruction whose execution compiles every operand at run time into a fresh function object and runs it in a nested Run (EvalCallExpression/nested), then runs the builtin under CallUserFunction; callee first, operands once, left to right, errors propagate with the trace; the SEGMENT LEMMA for the fragment F2 = expressions built from literals, symbol reference, def, set, begin, cond, and, or, non-empty newScope, letseq, let with distinct names, array literals, for loops without break/continue, calls (h a1 ... an) whose head symbol is looked up at run time and may denote a USER FUNCTION (closure object; a wrong number of operands is the script error of both sides), a first-order builtin, or something that cannot be called (the value itself without operands, an error with them), and - anywhere but inside the operands of a call - (fn [p1 ... pn] body...) and (defn name [p1 ... pn] body...) of fixed arity or with a rest parameter [p1 ... pn & rest] (the arguments beyond the fixed ones are packed into a list by wrangleOptargs in CallFunction, resp. by PrepareCall on the self-tail-call path; too few arguments is the script error of both sides), at top level or nested in function bodies to any depth: closures capture the scopes of the functions they were made in (and may assign to captured variables), are values (bound by def, passed as operands, returned, kept in lists) and are called later; recursion included (not in a position compiled as a self tail call); under a relation (Sim.RelF) in which values correspond modulo the numbering of closures (the VM names a closure by its index in the function table, the reference by its index in its closure table: Sim.tr, every first-order builtin commutes with the renaming: Sim.prim_tr) and in which the linear scope stack inside a callee is its own scopes down to the function scope on top of the caller's stack, the rest of the static chain being what stage 2 of LexicalLookupSymbol finds, segment by segment, in the closing stacks of the closure object and of the functions that made it (Sim.ChainF, Sim.FnChainF, Sim.RelF.lexLookup); templates are compiled when the text is loaded and closures made from them at run time (Sim.GenOk, Sim.closure_step); the SEGMENT LEMMA WITH NON-LOCAL EXITS for the fragment Fx = F2 plus, in top-level code (not inside function bodies or call operands), break and continue - plain or labelled - of the enclosing for loops, under begin/cond arms/let/letseq/newScope/nested for bodies (segment_lemma_Fx: a third kind of outcome besides landing and failing - when the reference evaluator yields brk l/cont l the VM has found the loop's LoopStart (the first one carrying its id: Sim.findLoopStart_at), popped exactly the scopes opened inside that loop, and stands on the loop's clearMark resp. continue label with only values above the loop's stack mark (Sim.JumpedF; the offsets are the ones GenerateForLoop stored after compiling the body: Sim.LoopsFinal); one loop with exits against Ref.loop: Sim.XClaimF); SELF TAIL CALLS (F2c, after fix C09-02): a call of the function being compiled, in tail position of its body (under begin/cond/let/letseq/newScope), is compiled as TailGuard, operands inline, PrepareCall, RemoveScope x (scopes+1), Goto 0, and behind the jump the ordinary call; tail_call_simulates (Sim.simT_selfcall): if the guard passes (the name still denotes the running function object) the operands are evaluated once, left to right, the scopes of the activation are dropped, the function is re-entered at instruction 0 in exactly the state CallFunction would leave for an ordinary call of the same closure from the original call site, so the rest of the activation is that application (FClaimU) and its return is the return of this activation (a fourth outcome of the simulation: Sim.RetOut); if the guard fails (name unbound, re-bound to something else, another closure) the ordinary call behind the jump runs; the arity check of the generator (knownFunctions) is tied to the running closure (Sim.KnownOk); the body of every closure object is simulated in tail position (Sim.TClaimB in FClaimU); LAZY PARAMETERS (F3-lazy): fn/defn of F2 and F2c may declare lazy parameters #p and every program may call force - the operand at a lazy position of a call of a closure object is not evaluated at the call: PrepareCallExprArgs (ordinary call) resp. PushLazyArgInstr (inline operands of a self tail call) appends a lazy argument object holding the expression, the live scope stack and the current function, the reference evaluator a thunk holding the expression and the frame (same index in both tables; machine, generator and reference delay the same positions: Sim.isLazyVM_clo, Sim.isLazyVM_eq); the relation carries the two tables (Sim.RelF.lz, Sim.LzOk: the captured stack is the static chain of the thunk's frame, continued along the closing stacks of the function of the call site; memos related); force on a lazy argument (Sim.force_sim, Sim.fclaimG): the expression is compiled at force time, registered as a helper function closed over the captured stack, run in a nested Run with the live stack set aside on `suspended`, the control state restored, the value stored in the same slot of both tables - so it is evaluated at most once, in the environment of the call site, also after the caller returned, from inside another force, and in a later activation reached by a self tail call; force on any other value returns it; wrong arity is the script error of both sides; the proof is by induction on the reference fuel with the segment lemma available at every lower fuel (the thunk's expression is evaluated with less fuel than the call of force); compile_correct_on_F3lazy restates CompileCorrect on these fragments and lazy_semantics_on_F3lazy is C16's LazySemantics restricted to them; APPLY AND MAP (F3): the same fragments may call apply and map and pass builtins as values - (apply f coll) and (map f coll) with f a closure object or a Go builtin (first-order, force, apply, map) and coll an array or a list: the Go builtin calls back into the machine (Apply: arguments pushed - at a lazy position the index of an already forced lazy argument object made for the value, on the reference side a value thunk in the same slot -, CallFunction, a nested Run whose return address names the builtin's pseudo-function, an error restores the captured control state): Sim.aclaim_succ against Ref.applyValues with the closure-application claim FClaimU at lower fuel (the relation is stated for the function that called the builtin: St.withCur, threaded through FClaimU/InAct/RetOut/SimT), Sim.marr_succ and Sim.mlist_succ against Ref.mapArr/Ref.mapList (one call per element, first to last, on the element as the collection holds it at that moment, results in a new array resp. list), Sim.hclaims: every Go builtin of the fragment inside its frame (Sim.BOk/Sim.BClaim) by induction on the reference fuel, Sim.fclaimH_of_bclaim: the call instruction around it; compile_correct_on_F3; NESTED FUNCTIONS: a defn that is a statement (or the last form) of a function body of F2c may itself have a body of F2c, to any depth - self tail calls and loops that break/continue inside nested functions (Sim.Fs, Sim.simF_defnZ, the generator on such bodies: Sim.total_stmt; compile_correct_on_F2c_nested); and from them CompileCorrect RESTRICTED TO Fv, TO Fc, TO F2, TO Fx AND TO F2c PROGRAMS (compile_correct_on_Fv, compile_correct_on_Fc, compile_correct_on_F2, compile_correct_on_F2x, compile_correct_on_F2c - F2c = top-level statements of Fx and top-level defns with self tail calls and, in the statements before the last form of their bodies, for loops that break/continue (the loop table facts travel with every closure object: Sim.GenOk now carries Sim.LoopsFinal, Sim.FnsKeep the growth of the loop table): whenever the reference evaluator reports value/error+trace for the program text, VM.runText = LoadExpressions+Run on the generator model reports the same), with explicit fuel bounds on both sides for the effect-free sub-fragment F0c (compile_correct_F0c: VM fuel 3*size+3). NOT PROVED: CompileCorrect for the remaining programs (def CompileCorrectOutsideProved: fn/defn inside an operand of a call or a self call in a directly compiled non-tail position, a self tail call or break/continue in an anonymous fn or in a defn that is not a statement of a function body, substitute, computed call heads, empty newScope); compile_correct_partial proves that CompileCorrect follows from that remainder. The remainder - and the tie of both models to the Go code - is held by the 3-way correspondence of channel `eval` (implementation vs VM model on class/value/trace/four stack depths; implementation vs reference evaluator on class/value/trace) over grammar- and type-directed programs, a malformed stream and an exhaustive small scope. A unit test fixes a few hundred programs; the theorems cover every arm count and nesting of the fragment, the correspondence every generated shape. Constructor freshness (channel `alias`, Props/C02Alias.lean): every evaluation of an array literal or other constructor of a mutable value allocates a fresh object (array_literal_allocates_fresh, array_literal_twice_distinct on the VM model and on the reference), checked on the real code by re-executing one call site with in-place mutation in between.",
+    note="Trusted: Lean kernel; axioms propext/Classical.choice/Quot.sound. The models are hand-written and tied to zygo/generator.go, vm.go, environment.go, scopes.go, closing.go, stack.go, expressions.go only by the `eval` correspondence (differential testing): the theorems are about Model/Gen.lean + Model/VM.lean vs Spec/RefEval.lean, not about the Go code. The builtin semantics on values (Model/Prim.lean) are shared by model and reference. Partial: the execution half of the simulation is proved for the fragments Fv, Fc, F2, Fx and F2c only (Fc: builtin calls, array literals and for loops without break/continue; F2: defn/fn of fixed arity at any depth, closures capturing locals, calls of user functions by name, recursion, functions as values, with def/set/begin/cond/and/or/newScope/letseq/let/array literals/for loops and builtin calls - no fn/defn inside call operands, no self tail call, no break/continue; lazy parameters #p, force, apply and map included; Fx: F2 plus break/continue - plain or labelled - in top-level loops; F2c: Fx plus top-level defns with self tail calls and loops that break/continue in their bodies); an empty (newScope) is outside the fragment (the reference allocates a frame, the VM pushes nil without a scope: the index-by-index relation does not cover it); a parallel let with a repeated name is outside the fragment and, by Ref.wf, outside the property's domain (implementation/VM model bind the last name first: (let [a 1 a 2] a) = 1, a first-name-first reading gives 2). Infix surface syntax, floats, chars, hashes and `/` are outside the modelled core; break/continue inside call operands are outside the random generators' domain (known finding). The `compile` listing channel is not implemented (jump arithmetic is tied to the Go code through `eval` only).",
+    technique="Lean 4 theorems over an executable model of generator+VM and a reference evaluator; 3-way model/spec/implementation correspondence through the line protocol (channels `eval` and `alias`)",
     design_ref="DESIGN.md §7 C02, §13",
 )
 
@@ -24,7 +24,7 @@ def project(rec):
     i = rec.rfind(" D[")
     return rec if i < 0 else rec[:i]
 
-_TO = re.compile(r"timeout - T\[[^\]]*\]")
+_TO = re.compile(r"timeout - T\[.*?\](?= D\[-\]| ;; |$)")   # trace entries may contain brackets (printed arrays)
 
 def norm_timeout(ans):
     """The two sides bound work differently (calls vs steps): of a text that did not
@@ -50,10 +50,17 @@ def judge(rows):
                 impl_for_model = model      # both do not terminate
             else:
                 impl_for_model = impl
-            if srecs[0] != "-":
-                out.append((op, impl, impl_for_model if impl_for_model != impl else model, spec))
-            else:
+            if impl_for_model != impl:
+                # implementation and model both do not terminate on some text of this history: the whole op
+                # was killed, so the implementation's answers for the EARLIER texts are lost and the
+                # reference cannot be compared text by text (false alarm met on a history whose 2nd text
+                # recurses forever: the reference had answered the 1st text)
+                stats["hang_histories_unjudged"] = stats.get("hang_histories_unjudged", 0) + 1
                 out.append((op, impl_for_model, model, "-"))
+            elif srecs[0] != "-":
+                out.append((op, impl, model, spec))
+            else:
+                out.append((op, impl, model, "-"))
             continue
         ok, compared = True, 0
         for k, s in enumerate(srecs):
@@ -75,6 +82,29 @@ def judge(rows):
             out.append((op, impl, model, spec))
     return out, stats
 
+ALIAS_MOD = "ZygoVerif.Props.C02Alias"
+
+def audit_alias(rep, prep, ok):
+    """Props/C02Alias.lean (array literals are constructors; lemmas in Proofs/AliasFresh.lean) is a second
+    home of C02 theorems: counted and axiom-audited like Props/C02.lean (lean_phase handles one module)."""
+    path = os.path.join(V.LEAN, *ALIAS_MOD.split(".")) + ".lean"
+    thms, examples = V.lean_decls(path)
+    rep.obligations += len(thms) + examples
+    rep.coverage["theorems"] = list(rep.coverage.get("theorems", [])) + thms
+    rep.coverage["examples"] = rep.coverage.get("examples", 0) + examples
+    if not prep["ok_lean"]:
+        return
+    with V.Lock():
+        ax, raw = V.print_axioms(ALIAS_MOD, thms)
+    bad = {t: a for t, a in ax.items() if set(a) - V.ALLOWED_AXIOMS}
+    missing = [t for t in thms if t not in ax]
+    rep.coverage["axioms"] = sorted(set(rep.coverage.get("axioms", [])) | {a for v in ax.values() for a in v})
+    if bad or missing:
+        rep.violation("proof-break", {"what": "axiom audit failed", "bad": bad, "unreported": missing,
+                                      "theorem_or_correspondence": "#print axioms (%s)" % ALIAS_MOD, "raw": raw[-2000:]}, no_input=True)
+    elif ok:
+        rep.discharged = rep.obligations
+
 def run(rep):
     # known findings proposed by this property (merged into known_findings.json by the integrator)
     try:
@@ -84,8 +114,9 @@ def run(rep):
                     rep.known.append(k)
     except FileNotFoundError:
         pass
-    prep = V.prepare(["ZygoVerif.Props.C02"])
+    prep = V.prepare(["ZygoVerif.Props.C02", ALIAS_MOD])
     ok = V.lean_phase(rep, prep, "ZygoVerif.Props.C02")
+    audit_alias(rep, prep, ok)
     rep.coverage["proved"] = ("for programs of every size and nesting (model of generator+VM vs reference evaluator): "
                               "layout: gen_begin_pops_between, gen_begin_length, gen_cond_targets (+asmCond_suffix), gen_shortcircuit_targets (+asmSC_suffix), gen_for_layout; "
                               "execution: vm_runLoop_step, vm_simple_instructions (push/pop/dup/jump/goto/branch as state transformers); "
@@ -105,11 +136,22 @@ def run(rep):
                               "fragment Sim.Fz, generator on tail positions compile_call_eq/compile_total_Fz, machine lemmas TailVM.exec_tailGuard_self/_other, exec_prepareCall_fixed, Sim.reach_removeScopes, entered_of; "
                               "outcome Sim.SimT = SimF or Sim.RetOut (the activation returned), the activation invariant Sim.InAct, operands inline Sim.TClaimV, Sim.simT_selfcall (guard passes: re-entry = ordinary application of the same closure via FClaimU; guard fails: the ordinary call), "
                               "claims Sim.TClaimE/B/C/N, FClaimU over tail-position bodies Sim.fclaimU_succ); "
-                              "compile_correct_partial: CompileCorrect on Fv, on Fc, on F2, on Fx and on F2c, and CompileCorrect follows from CompileCorrectOutsideProved")
-    rep.coverage["not_proved"] = ("CompileCorrectOutsideProved (def ... : Prop in Props/C02.lean): CompileCorrect for programs that are in none of Fv, Fc, F2, Fx, F2c - "
-                                  "fn/defn inside an operand of a call or with lazy parameters, a self call in a directly compiled non-tail position or in a nested defn (or together with break/continue), "
-                                  "map/apply/force/substitute, computed call heads, break/continue inside nested functions (fn, defn not at top level), empty newScope. "
-                                  "Held by the 3-way `eval` correspondence of this run, not by a theorem. The tie of Model/Gen.lean and Model/VM.lean to the Go code is by that correspondence only.")
+                              "compile_correct_on_F3lazy + lazy_semantics_on_F3lazy (F3-lazy = F2 and F2c whose fn/defn may declare lazy parameters #p and whose programs may call force: "
+                              "relation Sim.RelF.lz between the table of lazy argument objects and the table of thunks (Sim.LzOk: same expression, the captured scope stack is the static chain of the thunk's frame and goes on along the closing stacks of the function of the call site, memos related), "
+                              "PrepareCallExprArgs and PushLazyArgInstr at lazy positions vs Ref.evalArgs (FClaimA with the delayed positions, TClaimV for the inline operands of a self tail call, isLazyVM_clo/isLazyVM_eq: machine, generator and reference delay the same positions), "
+                              "Force vs Ref.force (Sim.force_sim: compiled at force time, helper function closed over the captured stack - FnChainF.sfx, relF_inForce - live stack set aside and restored from `suspended`, memo in the same slot of both tables RelF.memo; Sim.fclaimG: a call of `force`; the induction carries the segment lemma at all lower fuels)); "
+                              "compile_correct_on_F3 (apply and map in F2/F2c, callee a closure object or a Go builtin, arrays and lists: Sim.BOk/BClaim - a Go builtin inside its frame against Ref.applyFn -, bclaim_fo, bclaim_force, bclaim_apply, bclaim_map, "
+                              "AClaim/aclaim_succ - Apply from the builtin's frame against Ref.applyValues: vm_applyFn_fn, wrapVals/wrapLz and RelF.allocVals for the already forced lazy argument objects, run_reach_halt, FClaimU at lower fuel with the caller function carried separately (St.withCur) -, "
+                              "MArrClaim/MListClaim, hclaims: all of them by induction on the reference fuel from the segment lemma and FClaimU at lower fuels, fclaimH_of_bclaim: operands, CallUserFunction, builtin, value pushed); "
+                              "compile_correct_on_F2c_nested (nested defn statements with F2c bodies: Sim.Fs, fs_cases, total_stmt in the mutual generator-totality block, simF_defnZ, the defn cases of simF_stmt/tclaimE_succ); "
+                              "compile_correct_partial: CompileCorrect on Fv, on Fc, on F2, on Fx and on F2c (F2/F2c with lazy parameters, force, apply, map), and CompileCorrect follows from CompileCorrectOutsideProved; "
+                              "constructor freshness (Props/C02Alias.lean): array_literal_code_ends_in_constructor, array_literal_allocates_fresh, array_literal_twice_distinct, builtin_never_shrinks_heap, alloc_never_reuses, "
+                              "heap_monotone_partial, ref_array_literal_allocates_fresh, ref_const_literal_twice_distinct")
+    rep.coverage["not_proved"] = ("CompileCorrectOutsideProved (def ... : Prop in Props/C02.lean): CompileCorrect for programs that are in none of Fv, Fc, F2, Fx, F2c (F2/F2c include lazy parameters, force, apply and map) - "
+                                  "fn/defn inside an operand of a call, a self call in a directly compiled non-tail position, a self tail call or break/continue inside an anonymous fn or inside a defn that is not a statement of a function body (in a loop body, under def/set), "
+                                  "substitute, computed call heads, empty newScope. "
+                                  "Alias.HeapMonotoneAll (def ... : Prop in Proofs/AliasFresh.lean): every instruction of the VM keeps the state closed and never shrinks the data heap (proved for the literal's allocation and for every builtin only). "
+                                  "Held by the 3-way `eval` and `alias` correspondences of this run, not by a theorem. The tie of Model/Gen.lean and Model/VM.lean to the Go code is by that correspondence only.")
     rep.assumptions += [
         "Model/Gen.lean, Model/VM.lean are hand-written; tied to the Go code by the `eval` correspondence only (class, value, trace, four stack depths per text)",
         "Model/Prim.lean (what the builtins compute on values, truthiness, the BindSymbol re-binding rule) is shared by model and reference evaluator",
@@ -134,4 +176,17 @@ def run(rep):
                             "(all core forms, nesting to ~6, up to ~100 nodes, boundary ints), a malformed stream (one tree mutation), and the exhaustive "
                             "set of nesting-1 expressions over {0,1,a} x {+ cond and or let begin def set} (nesting 2 sampled in quick, complete in thorough); "
                             "an op is non-trivial when at least one text evaluated to a value")
-    V.proof_break_resolution(rep, bool(bad_spec))
+    # channel `alias`: constructor freshness / aliasing (harness/gen_alias.go, Driver/Alias.lean): same protocol, same judge
+    arows, astats = V.run_channel("alias", rep.seed, rep.tier)
+    arows, ajstats = judge(arows)
+    abad_spec, abad_model = V.correspondence(rep, "alias", arows, astats, nontrivial=nontrivial)
+    rep.coverage["channels"]["alias"].update(ajstats)
+    rep.coverage["rule_alias"] = ("constructor freshness / aliasing: every expression form that constructs a mutable value (22 kinds: constant / variable / computed / nested array literals, "
+                                  "(array ..), lists and conses holding arrays, append, concat, map, rest, a literal returned by a helper, in a cond arm, as a let initialiser) x every evaluated position "
+                                  "(28 kinds: operand of user fn / closure / anonymous fn / host fn / builtin / apply / map, variadic and lazy operands, def/set rhs, let/letseq initialiser and body, begin, newScope, "
+                                  "cond arm and default, and/or, aget default; nested up to 3) x re-execution route (fn called twice, called by later texts of the history, for body, for body in a fn called twice, "
+                                  "recursion, self tail call, closure called after its creator returned, two closures of one template, map, written twice) x in-place mutation between the executions "
+                                  "(aset at each index, through an alias, through a callee's parameter, increment, inside the callee the value was passed to, none) x observation (earlier result, later result, both, "
+                                  "equality of an element, identity, trace); plus derived values (append/concat/map of a variable must not share storage with it, both directions, spare capacity) and a malformed stream; "
+                                  "quick: every constructor x position pair once, a third of constructor x route x mutation, 250 random; thorough: all of them")
+    V.proof_break_resolution(rep, bool(bad_spec) or bool(abad_spec))
